@@ -111,6 +111,11 @@ def run(ctx):
                     todo.append(z)
         ctx.ob("R3", "compute-gas-joined-before-leaving-the-arm", len(joins) == 1 and not escaped, f.loc(y),
                "checked additions in the arm: %d; paths that leave the arm before the addition: %s" % (len(joins), escaped[:3]), f)
+    # the joined gas is the sum over *all* children (C10 R4)
+    if not getattr(ctx, "_src", None):
+        from . import C10
+        from .C19 import _Only
+        C10.run(_Only(ctx, "R4", "R3"))
     # R2
     n_arith = 0
     for fn in prog.fns_by_crate["essential_vm"] + prog.fns_by_crate["essential_check"]:
